@@ -43,8 +43,10 @@ inductive NS | ty | pr | ab
   deriving DecidableEq, Repr
 
 /-- lookup rule of a reference slot: `ty` = all_types; `pr` = all_procs;
-    `pa` = all_procs, then all_absinterfaces (procedure(...) prototypes) -/
-inductive SK | ty | pr | pa
+    `pa` = all_procs, then all_absinterfaces (procedure(...) prototypes);
+    `bn` = the `bindings` entry of a DEFERRED type-bound procedure: `FortranBoundProcedure.correlate`
+    looks it up nowhere (its branches are `if self.generic` / `elif not self.deferred`) -/
+inductive SK | ty | pr | pa | bn
   deriving DecidableEq, Repr
 
 inductive Phase | early | late
@@ -183,6 +185,7 @@ def lookupSlot (tb : Tabs) (s : Slot) : Option Ent :=
   | .pa => match tget tb.p n with
     | some e => some e
     | none => tget tb.a n
+  | .bn => none
 
 /-- content of the reference slots: the slot and the entity stored in it (`none` = the name stays text) -/
 abbrev Res := List (Slot × Option Ent)
